@@ -554,6 +554,30 @@ func genC14Plan(r *zsim.Rng) *sysPlan {
 		}
 		p.Events = append(seq, p.Events...)
 	}
+	// Targeted mode: a preview window of one to three rows (one row of content), more output than fits, and
+	// the mouse on the scrollbar column: the bar is as long as the window
+	if r.Chance(1, 15) {
+		for _, o := range []string{"--border", "--padding", "--height", "--preview", "--preview-window", "--margin", "--no-mouse"} {
+			c14DropOpt(p, o)
+		}
+		c14DropArg(p, "--no-mouse")
+		c14DropArg(p, "--no-scrollbar")
+		pw := pick(r, "up,1,border-none", "up,3", "down,1,border-none", "up,2,border-none,~1", "right,3,border-none")
+		p.Args = append(p.Args, "--preview", "PV {}", "--preview-window", pw)
+		long := ""
+		for k := 1; k <= 50; k++ {
+			long += fmt.Sprintf("line %d\n", k)
+		}
+		p.Procs = []procSpec{{Text: long}}
+		seq := []sysEvent{{Kind: "settle"}}
+		for i := r.Range(1, 4); i > 0; i-- {
+			x := []int{p.Cols, p.Cols - 1, r.Range(1, p.Cols+1)}[r.Intn(3)]
+			y := []int{1, 2, 3, p.Rows, p.Rows - 1, r.Range(1, p.Rows+1)}[r.Intn(6)]
+			x, y = clampInt(x, 1, p.Cols), clampInt(y, 1, p.Rows)
+			seq = append(seq, sysEvent{Kind: "raw", Raw: []byte(fmt.Sprintf("\x1b[<0;%d;%dM\x1b[<0;%d;%dm", x, y, x, y)), DelayMs: r.Intn(30)}, sysEvent{Kind: "settle"})
+		}
+		p.Events = append(seq, p.Events...)
+	}
 	// Targeted mode: commands whose template needs the current line, run when there is none (empty input or
 	// a query nothing matches), then a signal from outside: whatever state the skipped command left behind
 	// must not make fzf deaf.
@@ -660,6 +684,9 @@ func runC14(c *runCtx) {
 		// does. Coming back from ctrl-z fzf gives up the mouse on purpose (not full screen).
 		if r.t == nil || r.done || r.became != "" || !r.tty.Raw || r.t.executing.Get() {
 			return
+		}
+		if off := r.t.previewer.offset; off < 0 || off > 1<<40 {
+			c.violate("sys.preview_offset", "at rest the scroll offset of the preview window is %d (%d lines of output)", off, len(r.t.previewer.lines))
 		}
 		paste, mouseOn := r.tty.Modes()
 		mouse := 0
